@@ -161,6 +161,25 @@ def generate():
     ecpp = strip_comments(resolve_ifs(EXEC_CPP))
     items.append(skel_def("skel_inplace_run", skeleton(function_body(ecpp, r"InplaceGraphExecutor::run\s*\(\s*GraphVertex"), [r"vertex->run"])))
     items.append(skel_def("skel_pool_run", skeleton(function_body(ecpp, r"ThreadPoolGraphExecutor::run\s*\(\s*GraphVertex"), [r"_executor\.submit", r"vertex->run"])))
+    # --- memory orders of the publication path (view-level theorems, Babylon/Anyflow/View.lean)
+    def first(sites, kind, what, field=-1):
+        for x in sites:
+            if x.startswith(kind):
+                return x.split()[field]
+        raise ExtractError("anyflow: no %s site for %s" % (kind, what))
+    def ord_def(name, o):
+        return "def %s : Ord := %s" % (name, o)
+    items.append(ord_def("ordDepAdd", first(skeleton(act), ".rmw", "dependency activate fetch_add")))
+    items.append(ord_def("ordDepSub", first(skeleton(rdy), ".rmw", "dependency ready fetch_sub")))
+    items.append(ord_def("ordVertexReady", first(skeleton(vr), ".rmw", "vertex ready fetch_sub")))
+    items.append(ord_def("ordVertexBatch", first(skeleton(vact), ".rmw", "vertex activate batch fetch_sub")))
+    rel_sk = skeleton(function_body(dcpp, r"GraphData::release\s*\("))
+    items.append(ord_def("ordSeal", first(rel_sk, ".cas", "data seal CAS", -2)))
+    items.append(ord_def("ordReadyLoad", first(skeleton(dfn("ready")), ".load", "data ready load")))
+    items.append(ord_def("ordAcquireCas", first(skeleton(dfn("acquire")), ".cas", "data acquire CAS", -2)))
+    items.append(ord_def("ordDataSub", first(skeleton(cfn("depend_data_sub")), ".rmw", "closure depend_data_sub")))
+    items.append(ord_def("ordVertexSub", first(skeleton(cfn("depend_vertex_sub")), ".rmw", "closure depend_vertex_sub")))
+    items.append(ord_def("ordMarkFinished", first(skeleton(cfn("mark_finished")), ".cas", "mark_finished CAS", -2)))
     # --- reset(): the exact statements (which fields are re-initialised)
     items.append(str_def("resetTextDependency", _squash(function_body(dhpp, r"GraphDependency::reset\s*\("))))
     items.append(str_def("resetTextVertex", _squash(function_body(vcpp, r"GraphVertex::reset\s*\("))))
